@@ -121,7 +121,7 @@ def _report(ctx, base, replay, pf, field, tag, name, expected, observed):
     d = dict(base, field=field, tag=tag, param=name, expected=repr(expected)[:300], observed=repr(observed)[:300])
     if pf:
         d.update(typ_class=pf["typ_class"], default_class=pf["default_class"], doc_class=pf["doc_class"], param_kind=pf["kind"],
-                 after_defaulted=pf.get("after_defaulted"))
+                 after_defaulted=pf.get("after_defaulted"), doc_states_default=bool(pf.get("doc_states_default")))
     ctx.report(d, replay)
 
 
